@@ -54,6 +54,11 @@ type Scenario struct {
 	// OncePerProcess: the oracle reports a given violation once per process (race detector), so a
 	// re-execution of the same schedule is compared on its trace and outcome only.
 	OncePerProcess bool
+	// TolerateNondet: the scenario runs on an engine that is not instrumented (badger, tikv mock) and
+	// may not reproduce an execution exactly (asynchronous clean-up of failed transactions, lock
+	// time-to-live in real time).  A divergence is then counted and the sub-tree abandoned
+	// (exhaustive:false), never reported as a verdict: a violation is reported only if it reproduces.
+	TolerateNondet bool
 }
 
 // Job is a unit of work for a worker process.
@@ -90,6 +95,7 @@ type JobResult struct {
 	Replays   int             `json:"replays,omitempty"` // determinism self-checks performed
 	Pruned    int             `json:"pruned,omitempty"`  // subtrees not expanded (no-op excursions of spinning threads)
 	CacheHits int             `json:"cache_hits,omitempty"`
+	Nondet    int             `json:"nondet,omitempty"` // executions that did not reproduce on an un-instrumented engine
 	MaxDepth  int             `json:"max_depth,omitempty"`
 	Trace     []vrt.OpRec     `json:"trace,omitempty"`
 }
@@ -152,6 +158,10 @@ func (e *explorer) rec(prefix, prefixN []int, used int, expandOnly bool) {
 		e.res.MaxDepth = len(r.Choices)
 	}
 	if r.Diverged != "" {
+		if e.sc.TolerateNondet {
+			e.res.Nondet++
+			return
+		}
 		e.res.Err = "nondeterminism not captured (replay diverged): " + r.Diverged + " scenario=" + e.sc.Name
 		return
 	}
@@ -186,6 +196,10 @@ func (e *explorer) rec(prefix, prefixN []int, used int, expandOnly bool) {
 			x2, r2 := e.run(r.Choices, r.NCands, false)
 			e.res.Replays++
 			if r2.TraceHash != r.TraceHash || x2.Obs != x.Obs || (len(x2.Viols) != len(x.Viols) && !e.sc.OncePerProcess) || r2.Diverged != "" {
+				if e.sc.TolerateNondet {
+					e.res.Nondet++
+					return
+				}
 				e.res.Err = fmt.Sprintf("nondeterminism not captured: scenario=%s choices=%v obs %q vs %q, viols %d vs %d, hash %x vs %x %s",
 					e.sc.Name, compact(r.Choices), x.Obs, x2.Obs, len(x.Viols), len(x2.Viols), r.TraceHash, r2.TraceHash, r2.Diverged)
 				return
@@ -463,7 +477,7 @@ func WorkerLoop(exec func(*Job) *JobResult) {
 // Agg accumulates job results of one check.
 type Agg struct {
 	Execs, Steps, States, Horizons, Replays, MaxDepth int
-	CacheHits, Pruned                                 int
+	CacheHits, Pruned, Nondet                         int
 	Outcomes                                          map[string]int
 	Viols                                             []Violation
 	Errs                                              []string
@@ -492,6 +506,7 @@ func (a *Agg) Add(j Job, r *JobResult) {
 	a.Replays += r.Replays
 	a.CacheHits += r.CacheHits
 	a.Pruned += r.Pruned
+	a.Nondet += r.Nondet
 	if r.MaxDepth > a.MaxDepth {
 		a.MaxDepth = r.MaxDepth
 	}
